@@ -76,8 +76,8 @@ def methods():
 FMT_SCHEMA = {'type': 'object', 'properties': {'a': {'format': 'ipv4'}}}
 
 
-def make_case(texts, mode='history', n=None, threads=None, keying='fixed', validator=None, handlers=None):
-    c = {'suite': NAME, 'cfg': D.cfg(methods=methods(), handlers=handlers), 'texts': texts, 'loads': [S.load_result(t) for t in texts], 'mode': mode,
+def make_case(texts, mode='history', n=None, threads=None, keying='fixed', validator=None, handlers=None, middlewares=None):
+    c = {'suite': NAME, 'cfg': D.cfg(methods=methods(), handlers=handlers, middlewares=middlewares), 'texts': texts, 'loads': [S.load_result(t) for t in texts], 'mode': mode,
          'keying': keying}
     if validator:
         c['validator'] = validator
@@ -108,6 +108,12 @@ def generate(tier, rng):
         length = rng.randrange(1, 12 if thorough else 7)
         yield make_case([rng.choice(TEXTS) for _ in range(length)] + [rng.choice(TEXTS)], validator=VALIDATORS[i % 3] if i % 2 else None,
                         handlers=D.HANDLER_TABLES[3 + (i // 4) % 2] if i % 4 == 0 else None)
+    # a middleware that appends to the request's own parameter list: requests without parameters do not share a list
+    mutating = [{'k': 'appendParam', 'v': enc(9)}]
+    noparam = [t for t in TEXTS if '"params"' not in t and t.startswith('{') and '"method"' in t]
+    for a in noparam:
+        for b in noparam + [TEXTS[0]]:
+            yield make_case([a, a, b], middlewares=mutating)
     # failing requests of every class, in every order, on a dispatcher with generic and per-code error handlers
     failing = [TEXTS[4], TEXTS[2], TEXTS[8], TEXTS[9], TEXTS[13], TEXTS[0]]
     for a in failing:
@@ -146,6 +152,8 @@ def fresh_dispatcher(cfg, is_async, validator=None):
     """a dispatcher over *new* function / view-class objects, so the growth of the process-wide caches
     during this case is attributable to this case"""
     kwargs = {}
+    if cfg.get('middlewares'):
+        kwargs['middlewares'] = [S.make_middleware(i, s_, is_async) for i, s_ in enumerate(cfg['middlewares'])]
     if cfg.get('handlers'):
         kwargs['error_handlers'] = {
             (None if e['key'] is None else int(e['key'])): [S.make_handler(None if e['key'] is None else int(e['key']), i, h, is_async)
